@@ -22,6 +22,9 @@ RULE = (
     "were judged by the code-vs-model monitor"
 )
 ASSUMPTIONS = [
+    "verdict rule: a mismatch that no listed mechanism explains is decided (reported) only when pharmpy contradicts "
+    "itself - of the in-memory model M and pharmpy's own re-reading of the code generated from M exactly one agrees "
+    "with the reference reading of that code; otherwise the case is inconclusive (counted as uncertified_mismatch)",
     "NM-TRAN semantics = vp.nmtran_ref",
     "THETA(n)/ETA(n)/EPS(n) are aligned with model parameters / random variables by position",
     "compartments aligned by name, unmatched names by any permutation that makes field, doses, F and Y agree",
@@ -507,6 +510,17 @@ def run_case(rng, idx, tier):
                         # with the reference reading of that code - so M and read(write(M)) differ
                         detail["self_contradiction"] = certify(model, mm, wd, random.Random(jseeds[step_no]), K)
                         c.hit("certified_self_contradiction" if detail["self_contradiction"] else "not_certified")
+                if key is None or (key.startswith("C02/h:") and not detail.get("self_contradiction")):
+                    # Verdict rule: an unattributed mismatch between generated code and model is DECIDED only when
+                    # pharmpy contradicts itself on it (certify).  When pharmpy's own reading of the code agrees with
+                    # the in-memory model and only the reference reading differs, the disagreement is about NM-TRAN
+                    # semantics of the text (C01's subject, or a limit of the reference / of 50-digit arithmetic):
+                    # the case is inconclusive here - counted and shown in the evidence, never reported as held.
+                    if not detail.get("self_contradiction") and not certify(model, mm, wd, random.Random(jseeds[step_no]), K):
+                        c.hit("uncertified_mismatch")
+                        c.skipped = "uncertified-mismatch"
+                        c.sample["uncertified"] = {"after": list(applied), "what": mm.what[:300]}
+                        break
                 c.hit("classified" if key else "unclassified")
                 c.violate(key, f"after {applied}: {mm.what}", detail)
                 break
